@@ -58,6 +58,27 @@ impl LpEngine {
 
 enum G { A(w64::HistGen), B(w128::HistGen) }
 
+/// `pool_value` by its documented formula, in exact arithmetic, from the pools alone. Valid when the
+/// borrowing and distribution clocks are fresh (no pending accrual / distribution). `cfg` = the 56
+/// numbers of `new`; `kind` = pnl factor kind index.
+pub fn indep_pool_value(s: &Snap, cfg: &[u128], unit: u128, p: &P6, kind: usize, mx: bool) -> BigInt {
+    let b = |x: u128| BigInt::from(BigUint::from(x));
+    let (pl, ps) = if mx { (p.lmax, p.smax) } else { (p.lmin, p.smin) };
+    let (lv, sv) = (b(s.pools[0].0) * b(pl), b(s.pools[0].1) * b(ps));
+    let sum = |k: usize| b(s.pools[k].0) + b(s.pools[k].1);
+    let (oi_l, oi_s, oit_l, oit_s) = (sum(3), sum(4), sum(5), sum(6));
+    let pend = |oi: &BigInt, cum: u128, tot: u128| oi * b(cum) / b(unit) - b(tot);
+    let fees = (pend(&oi_l, s.pools[8].0, s.pools[15].0) + pend(&oi_s, s.pools[8].1, s.pools[15].1)) * (b(unit) - b(cfg[14])) / b(unit);
+    let zero = BigInt::from(0);
+    // pool value maximised => pnl minimised: long at index.min, short at index.max (and vice versa)
+    let pnl_l = if oi_l == zero && oit_l == zero { zero.clone() } else { oit_l * b(if mx { p.imin } else { p.imax }) - oi_l };
+    let pnl_s = if oi_s == zero && oit_s == zero { zero.clone() } else { oi_s - oit_s * b(if mx { p.imax } else { p.imin }) };
+    let f = b(cfg[17 + kind]);
+    let cap = |pnl: BigInt, v: &BigInt| if pnl > zero { pnl.min(v * &f / b(unit)) } else { pnl };
+    let impact = b(s.pools[7].0) * b(if mx { p.imin } else { p.imax });
+    lv.clone() + sv.clone() + fees - cap(pnl_l, &lv) - cap(pnl_s, &sv) - impact
+}
+
 fn big(x: u128) -> BigInt { BigInt::from(BigUint::from(x)) }
 
 /// C06 with open positions: histories of the position engine's generator (positions opened,
@@ -78,6 +99,7 @@ pub fn run_c06p() {
     let mut last_prices: Option<P6> = None;
     // sid -> borrowing / distribution clocks are at `now` (pre_execute ran and no time passed since)
     let mut fresh: HashMap<String, (bool, bool)> = HashMap::new();
+    let mut cfgs: HashMap<String, (u128, Vec<u128>)> = HashMap::new();
     // (minted, prices, snapshot before, snapshot after, pv before (deposit valuation), recv fees)
     let mut last_dep: HashMap<String, (u128, P6, Snap, Snap, BigInt, (u128, u128), (u128, u128))> = HashMap::new();
     loop {
@@ -145,6 +167,13 @@ pub fn run_c06p() {
             ("withdraw", Some(_)) => P6::parse(&t[t.len() - 6..]).and_then(|p| eng.pool_value(&sid, 1, false, &p)),
             _ => None,
         };
+        if let (Some(pb), Some(b), Some((unit, cfg)), true) = (pv_before.as_ref(), before.as_ref(), cfgs.get(&sid), fresh.get(&sid).map(|f| f.0 && f.1).unwrap_or(false)) {
+            if let Some(p) = P6::parse(&t[t.len() - 6..]) {
+                let (kind, mx) = if op == "deposit" { (0, true) } else { (1, false) };
+                out.stat("pv.formula_checked");
+                if &indep_pool_value(b, cfg, *unit, &p, kind, mx) != pb { out.oracle_fail("pool_value differs from liquidity + pending borrowing fees for the pool - capped pnl - impact pool value", &req); }
+            }
+        }
         let resp = eng.exec(&req);
         let after = eng.snap(&sid);
         let (rr, _) = split_resp(&resp);
@@ -156,7 +185,7 @@ pub fn run_c06p() {
             "tick" if rr[0] == "ok" && t[3] != "0" => { fresh.insert(sid.clone(), (false, false)); }
             "ubor" if rr[0] == "ok" => { fresh.entry(sid.clone()).or_insert((false, false)).0 = true; }
             "dist" if rr[0] == "ok" => { fresh.entry(sid.clone()).or_insert((false, false)).1 = true; }
-            "new" => { fresh.insert(sid.clone(), (false, false)); }
+            "new" => { fresh.insert(sid.clone(), (false, false)); if rr[0] == "ok" { cfgs.insert(sid.clone(), (t[4].parse().unwrap(), t[5..].iter().map(|x| x.parse().unwrap()).collect())); } }
             _ => {}
         }
         let is_fresh = fresh.get(&sid).map(|f| f.0 && f.1).unwrap_or(false);
@@ -236,7 +265,13 @@ pub fn run_c06p() {
                     }
                 }
             }
-            "pv" => { if rr[0] == "ok" { out.stat(if has_oi { "pv.ok_with_open_interest" } else { "pv.ok" }); if rr[1].starts_with('-') { out.stat("pv.negative"); } } else if rr[0] == "err" { out.stat("pv.err"); } }
+            "pv" => { if rr[0] == "ok" {
+                    // the implementation's pool value against the documented formula (fresh clocks only)
+                    if let (true, Some(b), Some((unit, cfg)), Some(p)) = (is_fresh, before.as_ref(), cfgs.get(&sid), P6::parse(&t[5..])) {
+                        let kind: usize = t[3].parse().unwrap();
+                        out.stat("pv.formula_checked");
+                        if indep_pool_value(b, cfg, *unit, &p, kind, t[4] == "1").to_string() != rr[1] { out.oracle_fail("pool_value differs from liquidity + pending borrowing fees for the pool - capped pnl - impact pool value", &req); }
+                    } out.stat(if has_oi { "pv.ok_with_open_interest" } else { "pv.ok" }); if rr[1].starts_with('-') { out.stat("pv.negative"); } } else if rr[0] == "err" { out.stat("pv.err"); } }
             "swap" => { last_dep.remove(&sid); if rr[0] == "ok" && has_oi { out.stat("swap.ok_with_open_interest"); } else if rr[0] == "err" { out.stat(&format!("swap.{}", rr.get(1).copied().unwrap_or("?"))); } }
             _ => { last_dep.remove(&sid); }
         }
